@@ -864,7 +864,7 @@ type Struct struct {
 }
 
 func (c StoreConfig) secretNames() ([]string, []*Fields, error) {
-	sec := c.Secrets
+	sec := slices.Clone(c.Secrets)
 	var svs []*Fields
 	for _, s := range c.Structs {
 		fs, err := ParseFields(s.Value, s.Prefix)
